@@ -188,7 +188,7 @@ CHECKS["C02"] = dict(
     rule="one run = one seeded op history over two vectors of one element type (or over one flat_map and one flat_set). non-trivial = a reallocation happened and an insert/erase "
          "not at the end was executed (flat: a lookup hit and a lookup miss); distinct = distinct hash of the op trace",
     simtime_units="container operations",
-    probes=["insert_at_realloc_boundary", "erase_prefix", "self_assign", "assign_from_empty", "fill_0xFF_memory", "range_insert", "copy_assign", "erase_tail", "freed_block_reused_at_once", "alias_argument_with_reallocation", "alias_argument_without_reallocation", "flat_set_custom_order"],
+    probes=["insert_at_realloc_boundary", "erase_prefix", "self_assign", "assign_from_empty", "fill_0xFF_memory", "range_insert", "copy_assign", "erase_tail", "freed_block_reused_at_once", "alias_argument_with_reallocation", "alias_argument_without_reallocation", "flat_set_custom_order", "append_with_throwing_constructor"],
     assumptions=["allocation never fails"],
 )
 
@@ -209,7 +209,7 @@ CHECKS["C14"] = dict(
     rule="one run = one seeded op history for one (element type, N) instantiation. non-trivial = at least one operation offered more than the remaining room; "
          "distinct = distinct hash of the op trace",
     simtime_units="container operations",
-    probes=["push_when_full", "ctor_2N_elements", "ctor_more_than_N_elements", "resize_beyond_N", "assign_over_nonempty", "self_assign", "erase", "ctor_ilist", "split", "split_token_longer_than_capacity", "split_more_tokens_than_capacity"],
+    probes=["push_when_full", "ctor_2N_elements", "ctor_more_than_N_elements", "resize_beyond_N", "assign_over_nonempty", "self_assign", "erase", "ctor_ilist", "split", "split_token_longer_than_capacity", "split_more_tokens_than_capacity", "append_with_throwing_constructor"],
     assumptions=["single caller", "c_str() sources are NUL terminated"],
 )
 
@@ -231,7 +231,7 @@ CHECKS["C15"] = dict(
     rule="one run = one seeded key history for one terminal implementation (C or C++), capacity and history depth; non-trivial = the cursor was strictly inside the line during an edit or a history "
          "line was recalled (sline world: the line was full and a bulk paste was clamped); distinct = distinct hash of the delivered byte sequence",
     simtime_units="bytes echoed to the simulated screen",
-    probes=["insert_mid_line", "line_full", "history_full", "crlf_twice", "esc_split_by_noise", "unknown_escape", "recall_with_cursor_inside_line", "bulk_paste_clamped", "getline", "linecpy"],
+    probes=["insert_mid_line", "line_full", "history_full", "crlf_twice", "esc_split_by_noise", "unknown_escape", "recall_with_cursor_inside_line", "bulk_paste_clamped", "getline", "linecpy", "cursor_beyond_column_255", "echo_off", "other_prompt"],
     assumptions=["screen wide enough that nothing wraps", "prompt is the default '$ '"],
 )
 
@@ -255,6 +255,6 @@ CHECKS["C09"] = dict(
     rule="one run = one seeded stream for one API (plus, in the truncation world, one decode per cut point). non-trivial = the stream has >= 2 values and one is a container; "
          "distinct = distinct hash of the encoded bytes",
     simtime_units="bytes written to the simulated storage",
-    probes=["empty_container", "nested_depth3", "non_trivial_element", "cut_inside_length_prefix_candidate", "len_65535"],
+    probes=["empty_container", "nested_depth3", "non_trivial_element", "cut_inside_length_prefix_candidate", "len_65535", "payload_64k_or_more"],
     assumptions=["strings and containers hold at most 65535 elements", "native endianness of this machine (the property says native-endian)"],
 )
